@@ -36,6 +36,9 @@ def build(d, tomo_override=None):
     tomo_of = [t % ntomo for t in d["tomo_of"][:n]]
     counts = [max(1, tomo_of.count(t)) for t in range(ntomo)]
     tomos = [gen.smooth_noise(d["seed"] + t, (S, S, S * counts[t]), sigma=1.0) for t in range(ntomo)]
+    if d.get("tdtype") == "int16":
+        # integer tomogram with large counts: a sum over the particles does not fit the dtype, the mean does
+        tomos = [np.clip(np.round(t_ * 6000.0), -32000, 32000).astype(np.int16) for t_ in tomos]
     slot, seen = [], [0] * ntomo
     for t in tomo_of:
         slot.append(seen[t])
@@ -89,7 +92,7 @@ def judge_mean(d):
         loader, tomos, tomo_of = build(d)
         n = d["n"]
         subs = loader.asnumpy()
-        rng = float(subs.max() - subs.min()) + 1e-9
+        rng = float(subs.max()) - float(subs.min()) + 1e-9
         avg = loader.average()
         tag = f"loader={d['loader']} n={n} shape={tuple(d['shape'])} chunks={'dask' if d['chunks'] else 'numpy'}"
         if avg.shape != subs.shape[1:]:
@@ -273,7 +276,7 @@ def mean_cases(draw):
             "tomo_of": [draw(st.integers(0, 2)) for _ in range(16)], "grp": [draw(st.integers(0, 1)) for _ in range(16)],
             "offs": [[round(draw(st.floats(-1.5, 1.5)), 2) for _ in range(3)] for _ in range(n)],
             "rots": [draw(gen.rotvecs()) for _ in range(n)], "chunks": chunks,
-            "stack_block": draw(st.sampled_from([None, 1, 2, 3, 5]))}
+            "stack_block": draw(st.sampled_from([None, 1, 2, 3, 5])), "tdtype": draw(st.sampled_from(["float32", "float32", "float32", "int16"]))}
 
 
 @st.composite
